@@ -619,9 +619,22 @@ func writeTypeConversion(w *formatting.IndentedWriter, typeChange dsl.TypeChange
 		}
 
 	case *dsl.TypeChangeOptionalTypeChanged:
+		// The inner conversion may need to treat its target as the inner type (e.g. resize a vector),
+		// so it gets a variable of that type rather than the optional itself
+		innerTargetType := tc.InnerChange.NewType()
+		if write {
+			innerTargetType = tc.InnerChange.OldType()
+		}
 		fmt.Fprintf(w, "if (%s.has_value()) {\n", sourceName)
 		w.Indented(func() {
-			writeTypeConversion(w, tc.InnerChange, sourceName+".value()", targetName, write)
+			tmpValueName := "optional_value"
+			fmt.Fprintf(w, "%s %s = {};\n", common.TypeSyntax(innerTargetType), tmpValueName)
+			writeTypeConversion(w, tc.InnerChange, sourceName+".value()", tmpValueName, write)
+			fmt.Fprintf(w, "%s = std::move(%s);\n", targetName, tmpValueName)
+		})
+		fmt.Fprintf(w, "} else {\n")
+		w.Indented(func() {
+			fmt.Fprintf(w, "%s.reset();\n", targetName)
 		})
 		fmt.Fprintf(w, "}\n")
 
